@@ -6,10 +6,10 @@ from ..cmp import cmp_bits_list
 from .. import exact as X
 from .. import gen
 
-MODULE = "Momtrop.Props.C16"
+MODULE = "Momtrop.Props.C16NaN"
 THEOREMS = ["Momtrop.C16.ok_det_nonzero", "Momtrop.C16.zeroDet_of_pivot_product_zero",
             "Momtrop.C16.zeroDet_of_det_zero", "Momtrop.C16.ok_stable", "Momtrop.C16.ok_same_without_test",
-            "Momtrop.C16.sample_reports_matrix_error", "Momtrop.C16.sample_ok_stable"]
+            "Momtrop.C16.sample_reports_matrix_error", "Momtrop.C16.sample_ok_stable", "Momtrop.C16.foldl_add_nan", "Momtrop.C16.ok_no_nan"]
 RULE = ("symmetric matrices n=1..6 in classes definite / zero last pivot (exact) / zero middle pivot / indefinite / "
         "NaN-containing / ill-conditioned / underflowing, each with tolerances {none,0,1e-300,1e-12,1e-6,1,inf,NaN}; "
         "non-trivial when n>=2 and a tolerance is set or the class is not 'definite'; distinct = matrix bits + tolerance")
